@@ -269,6 +269,35 @@ def install(eng):
     eng.method_handlers[(str, 'join')] = str_join
     eng.truth_handlers[CharList] = lambda e, c: bool(c.segs)
 
+    # -- the joined string: its last character, a literal character added ----
+    def span_getitem(e, s, key):
+        if isinstance(key, slice) or isinstance(key, bool):
+            raise Unsupported('SpanStr: only s[-1] is modelled')
+        k = key.z if isinstance(key, SNum) else key
+        if not (isinstance(k, int) and k == -1) and not (
+                z3.is_expr(k) and _provably(k == -1)):
+            raise Unsupported('SpanStr: only s[-1] is modelled')
+        if not s.segs:
+            raise PyRaise(IndexError('string index out of range'))
+        last = s.segs[-1]
+        if last[0] == 'chr':
+            return last[1]
+        _, lo, hi = last
+        if _provably(hi > lo):
+            return SChar(s.text, z3.simplify(hi - 1))
+        raise Unsupported('SpanStr[-1]: last span not known to be non-empty')
+
+    eng.getitem_handlers[SpanStr] = span_getitem
+
+    def span_add(e, op, a, b):
+        if isinstance(a, SpanStr) and isinstance(b, str) and len(b) == 1:
+            lit = SChar(a.text, None, code=z3.IntVal(ord(b)))
+            return SpanStr(cur(), a.text, a.segs + [('chr', lit)])
+        return NotImplemented
+
+    import ast as _ast
+    eng.binop_handlers[(_ast.Add, SpanStr)] = span_add
+
     # -- stack / abstract lists -------------------------------------------------
     eng.truth_handlers[AbsStack] = lambda e, s: e.truth(s.nonempty())
 
